@@ -7,7 +7,7 @@ namespace CalicoVerif.C11
 
 /-- Every rule of the tiers has a plain action and a guarded match part. -/
 def TiersPlain (env : Env) (st : List Byte) (p : Pkt) (ts : List Tier) : Prop :=
-  ∀ t ∈ ts, ∀ pol ∈ t.policies, ∀ r ∈ pol.rules, r.plainAction = true ∧ RuleGuarded env st p r
+  ∀ t ∈ ts, ∀ pol ∈ t.policies, ∀ r ∈ pol.rules, r.tierAction = true ∧ RuleGuarded env st p r
 
 def ProfilesPlain (env : Env) (st : List Byte) (p : Pkt) (ps : List Policy) : Prop :=
   ∀ pol ∈ ps, ∀ r ∈ pol.rules, r.plainAction = true ∧ RuleGuarded env st p r
@@ -15,25 +15,28 @@ def ProfilesPlain (env : Env) (st : List Byte) (p : Pkt) (ps : List Policy) : Pr
 /-- The two allow labels the builder uses. -/
 def isAllowLabel (l : Label) : Prop := l = .allow ∨ l = .allowedByHostPolicy
 
-theorem tierLabel_props {al : Label} (hal : isAllowLabel al) (tid : Nat) (r : Rule) (h : r.plainAction = true) :
-    tierActionLabel al tid r.action ≠ .log ∧ (tierActionLabel al tid r.action).isRule = false := by
+theorem tierLabel_props {al : Label} (hal : isAllowLabel al) (tid : Nat) (r : Rule) (h : r.tierAction = true) :
+    (tierActionLabel al tid r.action).isRule = false := by
   rw [tierActionLabel_actOf]
-  unfold Rule.plainAction at h
+  unfold Rule.tierAction at h
   rcases hal with rfl | rfl <;> cases ha : actOf r.action <;> simp [ha, Label.isRule] at h ⊢
 
 theorem profileLabel_props {al : Label} (hal : isAllowLabel al) (r : Rule) (h : r.plainAction = true) :
-    profileActionLabel al r.action ≠ .log ∧ (profileActionLabel al r.action).isRule = false := by
+    (profileActionLabel al r.action).isRule = false := by
   unfold Rule.plainAction at h
   have hl : actOf r.action ≠ .log := by intro e; simp [e] at h
   rw [profileActionLabel_actOf al r.action hl]
   rcases hal with rfl | rfl <;> cases ha : actOf r.action <;> simp [ha, Label.isRule] at h ⊢
+
+theorem allow_ne_log {al : Label} (hal : isAllowLabel al) : al ≠ .log := by
+  rcases hal with rfl | rfl <;> simp
 
 /-- Labels a policy block may define. -/
 def Label.isBody (l : Label) : Bool := l.isRule || l.isTierEnd
 
 theorem tiers_block (env : Env) (st : List Byte) (p : Pkt) (leg : Leg) (al : Label)
     (ts : List Tier) (rid tid : Nat)
-    (hrec : env.c.record = false) (hal : isAllowLabel al) (hts : TiersPlain env st p ts) :
+    (hal : isAllowLabel al) (hts : TiersPlain env st p ts) :
     Decides env st (flat (writeTiers env.c leg al ts rid tid).1) (tiersDec al (evalTiers env p leg ts)) ∧
     (∀ l ∈ labelsOf (flat (writeTiers env.c leg al ts rid tid).1), l.isBody = true) := by
   have hr : al.isRule = false := by rcases hal with rfl | rfl <;> rfl
@@ -41,31 +44,29 @@ theorem tiers_block (env : Env) (st : List Byte) (p : Pkt) (leg : Leg) (al : Lab
   have hok : TiersOK env st p al ts := by
     intro t htm tid' pol hp r hr'
     obtain ⟨h1, h2⟩ := hts t htm pol hp r hr'
-    obtain ⟨a, b⟩ := tierLabel_props hal tid' r h1
-    exact ⟨a, b, h2⟩
-  obtain ⟨d, hl⟩ := writeTiers_decides (env := env) (st := st) (p := p) leg al hrec hr ht ts rid tid hok
-  rw [tiersTarget_eval env p leg al ht ts tid (fun t htm pol hp r hr' => (hts t htm pol hp r hr').1)] at d
+    exact ⟨tierLabel_props hal tid' r h1, h2⟩
+  obtain ⟨d, hl⟩ := writeTiers_decides (env := env) (st := st) (p := p) leg al hr ht ts rid tid hok
+  rw [tiersTarget_eval env p leg al ht (allow_ne_log hal) ts tid (fun t htm pol hp r hr' => (hts t htm pol hp r hr').1)] at d
   refine ⟨d, ?_⟩
   intro l hm
   rcases hl l hm with h | h <;> simp [Label.isBody, h]
 
 theorem profiles_block (env : Env) (st : List Byte) (p : Pkt) (al : Label)
     (ps : List Policy) (noMatchID rid : Nat)
-    (hrec : env.c.record = false) (hal : isAllowLabel al) (hps : ProfilesPlain env st p ps) :
+    (hal : isAllowLabel al) (hps : ProfilesPlain env st p ps) :
     Decides env st (flat (writeProfiles env.c al ps noMatchID rid).1) (profDec al (evalProfiles true env p ps)) ∧
     (∀ l ∈ labelsOf (flat (writeProfiles env.c al ps noMatchID rid).1), l.isBody = true) := by
   have hok : PoliciesOK env st p (profileActionLabel al) ps := by
     intro pol hp r hr'
     obtain ⟨h1, h2⟩ := hps pol hp r hr'
-    obtain ⟨a, b⟩ := profileLabel_props hal r h1
-    exact ⟨a, b, h2⟩
-  have hP := writePolicies_decides (env := env) (st := st) (p := p) (profileActionLabel al) .dest hrec ps rid hok
+    exact ⟨profileLabel_props hal r h1, h2⟩
+  have hP := writePolicies_decides (env := env) (st := st) (p := p) (profileActionLabel al) .dest ps rid hok
   have hE := writeRule_decides (env := env) (st := st) (p := p)
     (writePolicies env.c (profileActionLabel al) .dest ps rid).2
-    { action := "", matchID := noMatchID } .deny .dest hrec (by simp) rfl (emptyRule_guarded env st p noMatchID)
+    { action := "", matchID := noMatchID } .deny .dest rfl (emptyRule_guarded env st p noMatchID)
   have hElab := writeRule_labels (env := env) (st := st) (p := p)
     (writePolicies env.c (profileActionLabel al) .dest ps rid).2
-    { action := "", matchID := noMatchID } .deny .dest hrec (by simp) (emptyRule_guarded env st p noMatchID)
+    { action := "", matchID := noMatchID } .deny .dest (emptyRule_guarded env st p noMatchID)
   have hEt : ruleTarget env p .dest { action := "", matchID := noMatchID } .deny = some .deny := by
     simp [ruleTarget, filterRule, filterNets, ruleMatch, icmpIs]
   rw [hEt] at hE
@@ -73,9 +74,9 @@ theorem profiles_block (env : Env) (st : List Byte) (p : Pkt) (al : Label)
     intro l hl hmem
     have hr := hElab l hmem
     have := policiesTarget_not_rule (env := env) (p := p) (leg := .dest) ps
-      (fun pol hp r hr' => (hok pol hp r hr').2.1) l hl
+      (fun pol hp r hr' => (hok pol hp r hr').1) l hl
     rw [this] at hr; cases hr)
-  rw [profilesTarget_eval env p al ps (fun pol hp r hr' => (hps pol hp r hr').1)] at this
+  rw [profilesTarget_eval env p al (allow_ne_log hal) ps (fun pol hp r hr' => (hps pol hp r hr').1)] at this
   refine ⟨by simpa only [writeProfiles, flat_append] using this, ?_⟩
   intro l hm
   simp only [writeProfiles, flat_append, labelsOf_append, List.mem_append] at hm
